@@ -176,13 +176,61 @@ func genC19World(src *choice.Src) *World {
 		}
 		w.Class = "self:from-config-dir"
 	}
+	if src.Chance("concurrent", 1, 6) && !w.AbsInputs {
+		// make -j2 self-compile generate-stub: the Makefile's two targets write into the same directory
+		// at the same time; now and then a third build next to them
+		dir := filepath.Dir(w.Out)
+		n := 1 + src.Draw("concurrent.n", 2)
+		for i := 0; i < n; i++ {
+			p := &World{OutKind: "file", Out: filepath.Join(dir, []string{"stub.go", "zz_second.go"}[i]), Patterns: append([]string{}, w.Patterns...),
+				MapSeed: seed64(src, "peer.mapseed"), ListSeed: seed64(src, "peer.listseed"), RandSeed: seed64(src, "peer.randseed"),
+				Clock: w.Clock + int64(src.Draw("peer.clock", 3)), Pid: w.Pid + 1 + i + src.Draw("peer.pid", 50), Host: w.Host,
+				Version: w.Version, Commit: w.Commit, Date: w.Date, Dirty: w.Dirty, Env: w.Env, NoGo: w.NoGo, Class: "self:peer"}
+			if i == 0 {
+				p.Flags = []string{"--stub"}
+			}
+			if src.Bool("peer.quiet") {
+				p.Flags = append(p.Flags, "--quiet")
+			}
+			if src.Bool("peer.preout") {
+				p.PreOut = &InFile{Path: p.Out, Content: "package gontainer\n\n// an earlier generation\n", Mode: 0644}
+			}
+			w.Peers = append(w.Peers, p)
+		}
+		w.SchedSeed = seed64(src, "schedseed")
+		w.Class += "+concurrent"
+	}
 	return w
+}
+
+// judgePeers: every build that ran next to the regenerate must have done what it does when it runs alone.
+func judgePeers(t Target, w *World, r *Result) *Violation {
+	for i, pr := range r.Peers {
+		pw := w.Peers[i].Clone()
+		mk := func(sig, detail string) *Violation {
+			return &Violation{Property: "C19", Sig: sig, Detail: detail + "\nturns (a = the regenerate, b.. = the other builds): " + r.Turns, Worlds: []*World{w}, Mode: "c19", Expect: []string{digest(r)}}
+		}
+		if pr.Exit < 0 {
+			return mk("concurrent-build-crashed", pr.Panic)
+		}
+		solo := w.Clone()
+		solo.Peers, solo.SchedSeed = nil, 0
+		solo.Patterns, solo.Out, solo.OutKind, solo.PreOut, solo.Flags = pw.Patterns, pw.Out, pw.OutKind, pw.PreOut, pw.Flags
+		solo.MapSeed, solo.ListSeed, solo.RandSeed, solo.Clock, solo.Pid = pw.MapSeed, pw.ListSeed, pw.RandSeed, pw.Clock, pw.Pid
+		sr := Exec(t, solo)
+		if sr.Exit != pr.Exit || sr.Out.Sha != pr.Out.Sha {
+			return mk("concurrent-build-differs-from-the-same-build-alone", fmt.Sprintf("a build started next to the regenerate (%s) ended differently than the same build alone\n  alone:      exit %d, -o %s\n  concurrent: exit %d, -o %s\n%s",
+				strings.Join(pw.Flags, " ")+" -o "+pw.Out, sr.Exit, obs(sr.Out), pr.Exit, obs(pr.Out), tail(pr.Stdout, 8)))
+		}
+	}
+	return nil
 }
 
 func CheckC19(t Target, src *choice.Src, st *Stats) *Violation {
 	w := genC19World(src)
 	faulted := src.Chance("faulted", 1, 8)
 	if faulted {
+		w.Peers, w.SchedSeed = nil, 0 // faults and concurrency are explored separately
 		// a failed regenerate (unreadable input) must leave the checked-in file intact, or the chain
 		// build -> regenerate -> rebuild -> regenerate stops
 		ref := Exec(t, w)
@@ -226,9 +274,23 @@ func CheckC19(t Target, src *choice.Src, st *Stats) *Violation {
 	if v := judgeC19(w, r); v != nil {
 		return v
 	}
+	if v := judgePeers(t, w, r); v != nil {
+		return v
+	}
+	if st != nil && len(w.Peers) > 0 {
+		st.Probes["concurrent-executions"]++
+		st.Probes["concurrent-turns"] += len(r.Turns)
+		sw := 0
+		for i := 1; i < len(r.Turns); i++ {
+			if r.Turns[i] != r.Turns[i-1] {
+				sw++
+			}
+		}
+		st.Probes["concurrent-switches-between-processes"] += sw
+	}
 	// whatever variable the run looked at is not part of the self-configuration: set every one of them
 	// and regenerate again
-	if len(w.Faults) == 0 {
+	if len(w.Faults) == 0 && len(w.Peers) == 0 {
 		var reads []string
 		seen := map[string]bool{}
 		for _, k := range r.EnvReads {
@@ -313,6 +375,9 @@ func replayC19(t Target, v *Violation) (string, string) {
 	w := v.Worlds[0]
 	r := Exec(t, w)
 	if nv := judgeC19(w, r); nv != nil {
+		return nv.Sig, nv.Detail
+	}
+	if nv := judgePeers(t, w, r); nv != nil {
 		return nv.Sig, nv.Detail
 	}
 	return "", ""
